@@ -209,7 +209,17 @@ func escapeQuotedStringLit(s string) []byte {
         return nil
     }
     buf := make([]byte, 0, len(s))
+    // This dialect has no \u/\U escapes; the only numeric escape its scanner
+    // accepts is \x followed by a run of hex digits (two per byte), which
+    // takes every hex digit that follows. A hex digit directly after a \x
+    // escape therefore has to be escaped as well.
+    afterHex := false
     for i, r := range s {
+        if afterHex && r < utf8.RuneSelf && isHexDigit(byte(r)) {
+            buf = appendHexEscape(buf, byte(r))
+            continue
+        }
+        afterHex = false
         switch r {
         case '\n':
             buf = append(buf, '\\', 'n')
@@ -230,19 +240,27 @@ func escapeQuotedStringLit(s string) []byte {
             }
         default:
             if !unicode.IsPrint(r) {
-                var fmted string
-                if r < 65536 {
-                    fmted = fmt.Sprintf("\\u%04x", r)
-                } else {
-                    fmted = fmt.Sprintf("\\U%08x", r)
+                var enc [utf8.UTFMax]byte
+                n := utf8.EncodeRune(enc[:], r)
+                for _, b := range enc[:n] {
+                    buf = appendHexEscape(buf, b)
                 }
-                buf = append(buf, fmted...)
+                afterHex = true
             } else {
                 buf = appendRune(buf, r)
             }
         }
     }
     return buf
+}
+
+func isHexDigit(b byte) bool {
+    return (b >= '0' && b <= '9') || (b >= 'a' && b <= 'f') || (b >= 'A' && b <= 'F')
+}
+
+func appendHexEscape(buf []byte, b byte) []byte {
+    const digits = "0123456789abcdef"
+    return append(buf, '\\', 'x', digits[b>>4], digits[b&15])
 }
 
 func appendRune(b []byte, r rune) []byte {
